@@ -1,6 +1,8 @@
 import A2Verif.Lemmas.Renumber
 import A2Verif.Lemmas.RenumberText
 import A2Verif.Lemmas.RenumberSel
+import A2Verif.Lemmas.RenumberFinal
+import A2Verif.Lemmas.RenumberMove
 /-!
 # Property C16 — renumbering preserves program structure
 
@@ -15,7 +17,9 @@ Reading guide (clauses of the property):
 * (ii)         — `selected_rows_are_the_requested_lines`, `selected_primaries_sequence`
 * (iii)        — `edits_char`, `ref_follows`, `only_label_edits`
 * (iv)         — `bottom_up_eq_simultaneous`
-* (i)          — `one_edit_on_one_row`, `apply_loop_rows_partial` (see the docstring for what is missing)
+* (i)–(iv) as one theorem, no move — `renumber_correct`
+* move path    — `moved_block_partial` (the inserted block; the placement of the block is what is missing)
+* building blocks of (i) — `one_edit_on_one_row`, `apply_loop_rows_partial`
 -/
 namespace A2Verif.C16
 open A2Verif.Model.Renumber A2Verif.Lemmas.Renumber
@@ -389,12 +393,10 @@ applied without error or panic, the number of rows is unchanged, and the resulti
 after the row-wise replacements; together with `bottom_up_eq_simultaneous` (per row) and `edits_char` (which
 ranges, which new texts) this is "same lines, same statements, same order, only label columns change".
 
-FULL (not proved, covered by the correspondence and by the `exact-text` oracle): for `renumber i = .ok out`
-without move and `labelsOK i.src i.defs i.refs`, `splitLines out` has the rows of `splitLines i.src` with row
-`r` replaced by `substAsc 0 row (label edits of row r, ascending)`.  Missing links: (a) `sortDesc` returns the
-edits in descending `(row, column)` order and label edits in that order form a `ValidSeq` (each row's edits a
-`Chain`); (b) a last line without `\n` and the CRLF wrapper of `apply_edits`
-(`crlfToLf` before / `lfToCrlf` after); (c) the move path (insertion of the pre-edited block, row deletions). -/
+The full statement (rows of the output = rows of the source with each row's label edits substituted, for every
+accepted no-move request with `labelsOK`, including a last line without `\\n` and CRLF texts) is
+`renumber_correct` below; this theorem is one of its building blocks and keeps its `_partial` name only because
+it speaks about the loop, not about `renumber`. -/
 theorem apply_loop_rows_partial (ls : List (List Nat)) (h : ∀ l ∈ ls, NoNl l) (es : List Edit)
     (hv : ValidSeq ls es) :
     applyLoop 0 es (joinT ls) = .ok (joinT (es.foldl rowsStep ls)) ∧
@@ -414,5 +416,386 @@ example :
   refine .cons ⟨rfl, by unfold NoNl; decide, _, rfl, by decide, by decide⟩ ?_
   refine .cons ⟨rfl, by unfold NoNl; decide, _, rfl, by decide, by decide⟩ ?_
   exact .nil _
+
+/-! ## the property as one theorem (no move) -/
+
+/-- the new text of a label whose number is mapped to `n` -/
+def labelEdit (lab : Label) (n : Nat) : E1 :=
+  ⟨lab.rng.s.ch, lab.rng.e.ch, List.replicate lab.lead SP ++ digits n ++ List.replicate lab.trail SP⟩
+
+/-- **C16, clauses (i)–(iv), for requests that do not move lines.**
+
+Hypotheses: the program text is the LF document `d` of the rows `rows` (no `\r`/`\n` inside a row), with or
+without a final newline (`t`), given either as it is or in CRLF form (`crlf`); the gathered labels satisfy
+`labelsOK`; the line numbers ascend with the rows; REORDER and PASS_OVER_REFS are off; the request is accepted.
+
+Conclusion: there are `keys` — the strictly ascending enumeration of the line numbers lying in `[beg,end)` —
+and a `mapping` sending the `k`-th key to `first + k*step` and nothing else (ii), such that the output is the
+document of rows `rows'` with the same line separator, the same final-newline state and the same number of
+rows (i), and every row is the original row in which an ascending, pairwise disjoint chain `as` of ranges has
+been replaced simultaneously (iv), where `as` consists of **exactly** the labels (defining or referring, in any
+row) whose number is a key, each replaced by its blanks + the image of its number (iii); every character
+outside those ranges is kept in place (`substAsc`). -/
+theorem renumber_correct (i : Input) (out d : List Nat) (rows : List (List Nat)) (t crlf : Bool)
+    (hdoc : IsDoc d rows t) (hsrc : i.src = if crlf then lfToCrlf d else d)
+    (hlab : labelsOK i.src i.defs i.refs = true)
+    (hmono : ∀ d1 ∈ i.defs, ∀ d2 ∈ i.defs, d1.2.rng.s.line ≤ d2.2.rng.s.line → d1.1 ≤ d2.1)
+    (hrows : ∀ x ∈ i.defs, x.2.rng.s.line < 0x10000)
+    (hflags : i.flags % 2 = 0 ∧ i.flags / 2 % 2 = 0)
+    (h : renumber i = .ok out) :
+    ∃ (keys : List Nat) (mapping : List (Nat × Nat)) (rows' : List (List Nat)) (d' : List Nat),
+      keys.Pairwise (· < ·) ∧
+      (∀ num, num ∈ keys ↔ (∃ lab, (num, lab) ∈ i.defs) ∧ i.beg ≤ num ∧ num < i.end_) ∧
+      (∀ k num, keys[k]? = some num → lookup mapping num = some (i.first + k * i.step)) ∧
+      (∀ num, num ∉ keys → lookup mapping num = none) ∧
+      out = (if crlf then lfToCrlf d' else d') ∧ IsDoc d' rows' t ∧ rows'.length = rows.length ∧
+      ∀ r l, rows[r]? = some l → ∃ as, Chain 0 l.length as ∧ rows'[r]? = some (substAsc 0 l as) ∧
+        ∀ x, x ∈ as ↔ ∃ num lab n, ((num, lab) ∈ i.defs ∨ (num, lab) ∈ i.refs) ∧ lab.rng.s.line = r ∧
+          lookup mapping num = some n ∧ x = labelEdit lab n := by
+  obtain ⟨ext, pl, edits, hext, hany, hp, hb, happ⟩ := renumber_ok_inv h
+  have hmove : i.params.allowMove = false := by simp [Input.params, hflags.1]
+  have hupd : i.params.updateRefs = true := by simp [Input.params, hflags.2]
+  obtain ⟨pl', hp', _, hedits⟩ := accepts_move_only_if_allowed hmove hb
+  rw [hp] at hp'
+  injection hp' with hp'
+  subst hp'
+  have f := plan_ok_inv hp
+  -- the rows of the source
+  have hsplit : splitLines i.src = rows := by
+    rw [hsrc]
+    cases crlf with
+    | true => simp only [↓reduceIte]; rw [splitLines_lfToCrlf d (noCR_isDoc hdoc)]; exact splitLines_isDoc hdoc
+    | false => exact splitLines_isDoc hdoc
+  -- what labelsOK says
+  unfold labelsOK at hlab
+  simp only [hsplit, Bool.and_eq_true, List.all_eq_true] at hlab
+  obtain ⟨hok, hpw⟩ := hlab
+  have hpw' : (i.defs ++ i.refs).Pairwise DisjX := by
+    have := (pairwiseB_iff _ _).mp hpw
+    rw [List.pairwise_map] at this
+    exact this
+  have hrowR : ∀ x ∈ i.refs, x.2.rng.e.line = x.2.rng.s.line := by
+    intro x hx
+    obtain ⟨_, _, h2, _⟩ := labelOK_geom (hok x (List.mem_append_right _ hx))
+    exact h2
+  have hrowR' : ∀ x ∈ i.refs, x.2.rng.s.line = x.2.rng.e.line := fun x hx => (hrowR x hx).symm
+  -- the edit list
+  have hE : pl.selEdits ++ pl.unselEdits =
+      primEdits pl.mapping (selGroup pl.sel i.defs) ++ secEdits pl.mapping (selGroup pl.sel i.refs) (fun _ => true) ++
+      secEdits pl.mapping (group i.refs)
+        (fun item => item.rng.s.line < pl.sel.s.line || item.rng.e.line > pl.sel.e.line) := by
+    rw [f.selEdits, f.unselEdits]; simp [hupd]
+  have hdis : (pl.selEdits ++ pl.unselEdits).Pairwise DisjE := by
+    rw [hE]; exact edits_pairwise _ _ _ _ hpw' hrowR
+  have hkeyOf : ∀ num n, lookup pl.mapping num = some n → num ∈ (selGroup pl.sel i.defs).map (·.1) := by
+    intro num n hl
+    apply Classical.byContradiction
+    intro hn
+    have := lookup_none_of_not_mem pl.mapping num (by rw [f.mapping, mkMapping_keys]; exact hn)
+    rw [this] at hl; cases hl
+  have hfit : ∀ ed ∈ pl.selEdits ++ pl.unselEdits,
+      EditOn rows ed ∧ ed.rng.s.ch < ed.rng.e.ch ∧ ed.new ≠ [] := by
+    intro ed hed
+    obtain ⟨num, lab, n, hmem, _, _, rfl⟩ := only_label_edits hp hupd hrowR' ed hed
+    have hmem' : (num, lab) ∈ i.defs ++ i.refs := List.mem_append.mpr hmem
+    obtain ⟨l, hl, h2, h3, h4⟩ := labelOK_geom (hok _ hmem')
+    obtain ⟨hn1, hn2⟩ := applyMapping_new n lab
+    exact ⟨⟨h2, hn1, l, hl, Nat.le_of_lt h3, h4⟩, h3, hn2⟩
+  obtain ⟨d', rows', happ', hd', hlen, hrowsSpec⟩ :=
+    applyEdits_disjoint hdoc crlf (pl.selEdits ++ pl.unselEdits) hfit hdis
+  rw [← hsrc, ← hedits, happ] at happ'
+  injection happ' with hout
+  -- the selection
+  obtain ⟨l0, ln, rfl, hle, hiff⟩ := extSelOf_spec i.defs i.beg i.end_ ext hext hany hmono hrows
+  obtain ⟨ep, hns⟩ := f.selNorm
+  obtain ⟨hs0, hs1⟩ := normSel_rows hle hns
+  have huniq := accepts_only_unique_primaries h
+  have hkeys : ∀ num, num ∈ (selGroup pl.sel i.defs).map (·.1) ↔
+      (∃ lab, (num, lab) ∈ i.defs ∧ inSel pl.sel lab = true) := by
+    intro num
+    constructor
+    · intro hk
+      obtain ⟨⟨k, vs⟩, hx, rfl⟩ := List.mem_map.mp hk
+      have hne := group_vals_ne_nil _ _ hx
+      cases vs with
+      | nil => exact absurd rfl hne
+      | cons v rest =>
+        have : MemG (selGroup pl.sel i.defs) k v := ⟨v :: rest, hx, by simp⟩
+        unfold selGroup at this
+        rw [memG_group] at this
+        exact ⟨v, List.mem_filter.mp this⟩
+    · rintro ⟨lab, hm, hin⟩
+      have : MemG (selGroup pl.sel i.defs) num lab := by
+        unfold selGroup; rw [memG_group]; exact List.mem_filter.mpr ⟨hm, hin⟩
+      obtain ⟨vs, hvs, _⟩ := this
+      exact List.mem_map.mpr ⟨(num, vs), hvs, rfl⟩
+  have hinSel : ∀ x ∈ i.defs, inSel pl.sel x.2 = true ↔ (i.beg ≤ x.1 ∧ x.1 < i.end_) := by
+    intro x hx
+    rw [← hiff x hx]
+    simp only [inSel, Bool.and_eq_true, decide_eq_true_eq, hs0, hs1]
+  have hks : ((selGroup pl.sel i.defs).map (·.1)).Pairwise (· < ·) := keysSorted_group _
+  refine ⟨(selGroup pl.sel i.defs).map (·.1), pl.mapping, rows', d', hks, ?_, ?_, ?_, hout,
+    hd', hlen, ?_⟩
+  · intro num
+    rw [hkeys]
+    constructor
+    · rintro ⟨lab, hm, hin⟩
+      exact ⟨⟨lab, hm⟩, (hinSel _ hm).mp hin⟩
+    · rintro ⟨⟨lab, hm⟩, hb⟩
+      exact ⟨lab, hm, (hinSel _ hm).mpr hb⟩
+  · intro k num hk
+    have hnd : ((selGroup pl.sel i.defs).map (·.1)).Nodup := keys_nodup_group _
+    have := lookup_mkMapping i.params.l0 i.params.dl _ hnd k num hk
+    rw [← f.mapping] at this
+    exact this
+  · intro num hn
+    exact lookup_none_of_not_mem pl.mapping num (by rw [f.mapping, mkMapping_keys]; exact hn)
+  · intro r l hl
+    obtain ⟨as, hc, hrow, hmem⟩ := hrowsSpec r l hl
+    refine ⟨as, hc, hrow, ?_⟩
+    intro x
+    rw [hmem]
+    constructor
+    · rintro ⟨ed, hed, hr, rfl⟩
+      obtain ⟨num, lab, n, hm, _, hl', rfl⟩ := only_label_edits hp hupd hrowR' ed hed
+      exact ⟨num, lab, n, hm, hr, hl', rfl⟩
+    · rintro ⟨num, lab, n, hm, hr, hl', rfl⟩
+      refine ⟨applyMapping n lab, ?_, hr, rfl⟩
+      rcases hm with hm | hm
+      · -- a defining label whose number is mapped is the first (only) label of a selected key
+        obtain ⟨lab', hm', hin'⟩ := (hkeys num).mp (hkeyOf num n hl')
+        have hll := huniq num lab lab' hm hm'
+        subst hll
+        have : MemG (selGroup pl.sel i.defs) num lab := by
+          unfold selGroup; rw [memG_group]; exact List.mem_filter.mpr ⟨hm, hin'⟩
+        obtain ⟨vs, hvs, hv⟩ := this
+        cases vs with
+        | nil => cases hv
+        | cons v rest =>
+          have hv' : (num, v) ∈ i.defs := by
+            have : MemG (selGroup pl.sel i.defs) num v := ⟨v :: rest, hvs, by simp⟩
+            unfold selGroup at this
+            rw [memG_group] at this
+            exact (List.mem_filter.mp this).1
+          have := huniq num lab v hm hv'
+          subst this
+          exact (edits_char hp hupd hrowR' _).mpr (Or.inl ⟨num, lab, rest, n, hvs, hl', rfl⟩)
+      · exact (edits_char hp hupd hrowR' _).mpr (Or.inr ⟨num, lab, n, hm, hl', rfl⟩)
+
+/-- the running example meets every hypothesis of `renumber_correct` (LF text with final newline) -/
+example :
+    IsDoc exIn.src [[49,48,32,71,79,84,79,32,51,48], [50,48,32,69,78,68], [51,48,32,71,79,84,79,32,49,48]] true ∧
+    labelsOK exIn.src exIn.defs exIn.refs = true ∧
+    (∀ d1 ∈ exIn.defs, ∀ d2 ∈ exIn.defs, d1.2.rng.s.line ≤ d2.2.rng.s.line → d1.1 ≤ d2.1) ∧
+    (∀ x ∈ exIn.defs, x.2.rng.s.line < 0x10000) ∧ (exIn.flags % 2 = 0 ∧ exIn.flags / 2 % 2 = 0) ∧
+    renumber exIn = .ok exOut := by
+  refine ⟨⟨by unfold NoNl; decide, by simp only [↓reduceIte]; decide⟩, by decide, by decide, by decide, by decide,
+    by decide⟩
+
+/-- the same program as CRLF text without final newline: also an instance (`t = false`, `crlf = true`) -/
+example :
+    let d := [49,48,32,71,79,84,79,32,51,48,10,50,48,32,69,78,68,10,51,48,32,71,79,84,79,32,49,48]
+    let rows := [[49,48,32,71,79,84,79,32,51,48], [50,48,32,69,78,68], [51,48,32,71,79,84,79,32,49,48]]
+    IsDoc d rows false ∧
+    labelsOK (lfToCrlf d) exIn.defs exIn.refs = true ∧
+    renumber { exIn with src := lfToCrlf d } =
+      .ok (lfToCrlf [49,48,32,71,79,84,79,32,49,49,48,10,49,48,48,32,69,78,68,10,49,49,48,32,71,79,84,79,32,49,48]) := by
+  refine ⟨⟨by unfold NoNl; decide, ?_⟩, by decide, by decide⟩
+  simp only [Bool.false_eq_true, ↓reduceIte]
+  exact ⟨by decide, [[49,48,32,71,79,84,79,32,51,48], [50,48,32,69,78,68]], [51,48,32,71,79,84,79,32,49,48],
+    by decide, by decide⟩
+
+/-! ## the move path -/
+
+theorem prim_mem {defs : List (Nat × Label)} {sel : Range} {mapping : List (Nat × Nat)} {num n : Nat} {lab : Label}
+    (huniq : ∀ num l1 l2, (num, l1) ∈ defs → (num, l2) ∈ defs → l1 = l2)
+    (hm : (num, lab) ∈ defs) (hin : inSel sel lab = true) (hl : lookup mapping num = some n) :
+    applyMapping n lab ∈ primEdits mapping (selGroup sel defs) := by
+  have : MemG (selGroup sel defs) num lab := by
+    unfold selGroup; rw [memG_group]; exact List.mem_filter.mpr ⟨hm, hin⟩
+  obtain ⟨vs, hvs, hv⟩ := this
+  cases vs with
+  | nil => cases hv
+  | cons v rest =>
+    have hv' : (num, v) ∈ defs := by
+      have : MemG (selGroup sel defs) num v := ⟨v :: rest, hvs, by simp⟩
+      unfold selGroup at this
+      rw [memG_group] at this
+      exact (List.mem_filter.mp this).1
+    have := huniq num lab v hm hv'
+    subst this
+    exact (mem_primEdits _ _ _).mpr ⟨num, lab, rest, n, hvs, hl, rfl⟩
+
+/-- **Move path, the moved block** (partial form of "with move: the selected block … ").  When the request is
+accepted and the selection has to move (`insert_pos.line ≠ sel.start.line`, REORDER set), the edit list is:
+a line separator appended at the end of the document, the pre-edited block inserted at column 0 of the
+insertion row, one deletion `(l,0)-(l+1,0)` for every selected row, and the label edits of the unselected rows.
+The inserted text `updated` is the document (each row terminated by `line_sep`) of the selected rows, in their
+order, in which exactly the labels standing on those rows whose number is a renumbered primary have been
+replaced by their images (clauses (ii)–(iv) for the block).
+
+MISSING for the full clause "(with move) the selected block is contiguous at the insertion row, the other rows
+keep their order": the effect of `apply_edits` on this mixed list — `replace_range` with the multi-row
+deletion ranges, the insertion of a multi-line text, the insertion at `end_pos` (including the special case
+`start.line == line_count`), and the row shifts between them.  Covered by the correspondence (≈ 600 real moves
+per quick run agree with the model) and by the oracles `same-lines` / `primary-sequence` / `refs-follow`. -/
+theorem moved_block_partial (i : Input) (out d : List Nat) (rows : List (List Nat)) (t crlf : Bool)
+    (hdoc : IsDoc d rows t) (hsrc : i.src = if crlf then lfToCrlf d else d)
+    (hlab : labelsOK i.src i.defs i.refs = true) (hupdF : i.flags / 2 % 2 = 0)
+    (h : renumber i = .ok out) :
+    ∃ ext pl edits, plan i.src i.defs i.refs ext i.params = .ok pl ∧
+      buildEdits i.src i.defs i.refs ext i.params = .ok edits ∧ applyEdits i.src edits 0 = .ok out ∧
+      (pl.ins ≠ pl.sel.s.line →
+        ∃ updated block',
+          edits = [⟨⟨pl.endPos, pl.endPos⟩, pl.lineSep⟩, ⟨⟨⟨pl.ins, 0⟩, ⟨pl.ins, 0⟩⟩, updated⟩] ++
+            (rangeList pl.sel.s.line pl.sel.e.line).map (fun l => (⟨⟨⟨l, 0⟩, ⟨l + 1, 0⟩⟩, []⟩ : Edit)) ++
+            pl.unselEdits ∧
+          updated = (if pl.lineSep = [CR, LF] then lfToCrlf (joinT block') else joinT block') ∧
+          block'.length = pl.sel.e.line + 1 - pl.sel.s.line ∧
+          ∀ k l, k < block'.length → rows[pl.sel.s.line + k]? = some l →
+            ∃ as, Chain 0 l.length as ∧ block'[k]? = some (substAsc 0 l as) ∧
+              ∀ x, x ∈ as ↔ ∃ num lab n, ((num, lab) ∈ i.defs ∨ (num, lab) ∈ i.refs) ∧
+                lab.rng.s.line = pl.sel.s.line + k ∧ lookup pl.mapping num = some n ∧ x = labelEdit lab n) := by
+  obtain ⟨ext, pl, edits, hext, hany, hp, hb, happ⟩ := renumber_ok_inv h
+  refine ⟨ext, pl, edits, hp, hb, happ, ?_⟩
+  intro hmv
+  obtain ⟨pl', hp', hor⟩ := buildEdits_ok_inv hb
+  rw [hp] at hp'
+  injection hp' with hp'
+  subst hp'
+  rcases hor with ⟨h1, _⟩ | ⟨_, updated, hu, hedits⟩
+  · exact absurd h1 hmv
+  have hupd : i.params.updateRefs = true := by simp [Input.params, hupdF]
+  have f := plan_ok_inv hp
+  have huniq := accepts_only_unique_primaries h
+  have hsplit : splitLines i.src = rows := by
+    rw [hsrc]
+    cases crlf with
+    | true => simp only [↓reduceIte]; rw [splitLines_lfToCrlf d (noCR_isDoc hdoc)]; exact splitLines_isDoc hdoc
+    | false => exact splitLines_isDoc hdoc
+  unfold labelsOK at hlab
+  simp only [hsplit, Bool.and_eq_true, List.all_eq_true] at hlab
+  obtain ⟨hok, hpw⟩ := hlab
+  have hpw' : (i.defs ++ i.refs).Pairwise DisjX := by
+    have := (pairwiseB_iff _ _).mp hpw
+    rw [List.pairwise_map] at this
+    exact this
+  have hrowR : ∀ x ∈ i.refs, x.2.rng.e.line = x.2.rng.s.line := by
+    intro x hx
+    obtain ⟨_, _, h2, _⟩ := labelOK_geom (hok x (List.mem_append_right _ hx))
+    exact h2
+  -- the edits inside the selection
+  have hSel : pl.selEdits = primEdits pl.mapping (selGroup pl.sel i.defs) ++
+      secEdits pl.mapping (selGroup pl.sel i.refs) (fun _ => true) := by
+    rw [f.selEdits]; simp [hupd]
+  have hselMem : ∀ ed, ed ∈ pl.selEdits ↔ ∃ num lab n, ((num, lab) ∈ i.defs ∨ (num, lab) ∈ i.refs) ∧
+      inSel pl.sel lab = true ∧ lookup pl.mapping num = some n ∧ ed = applyMapping n lab := by
+    intro ed
+    rw [hSel, List.mem_append]
+    constructor
+    · rintro (h1 | h1)
+      · obtain ⟨num, lab, rest, n, hm, hl, rfl⟩ := (mem_primEdits _ _ _).mp h1
+        have : MemG (selGroup pl.sel i.defs) num lab := ⟨lab :: rest, hm, by simp⟩
+        unfold selGroup at this
+        rw [memG_group] at this
+        obtain ⟨hm', hin⟩ := List.mem_filter.mp this
+        exact ⟨num, lab, n, Or.inl hm', hin, hl, rfl⟩
+      · obtain ⟨s, item, n, hm, hl, _, rfl⟩ := (mem_secEdits _ _ _ _).mp h1
+        unfold selGroup at hm
+        rw [memG_group] at hm
+        obtain ⟨hm', hin⟩ := List.mem_filter.mp hm
+        exact ⟨s, item, n, Or.inr hm', hin, hl, rfl⟩
+    · rintro ⟨num, lab, n, hm | hm, hin, hl, rfl⟩
+      · exact Or.inl (prim_mem huniq hm hin hl)
+      · refine Or.inr ((mem_secEdits _ _ _ _).mpr ⟨num, lab, n, ?_, hl, rfl, rfl⟩)
+        unfold selGroup; rw [memG_group]; exact List.mem_filter.mpr ⟨hm, hin⟩
+  have hdisSel : pl.selEdits.Pairwise DisjE := by
+    have := edits_pairwise pl.mapping pl.sel i.defs i.refs hpw' hrowR
+    rw [← hSel] at this
+    exact (List.pairwise_append.mp this).1
+  -- the selected rows as a document
+  let block := (rangeList pl.sel.s.line pl.sel.e.line).map (fun l => rows[l]?.getD [])
+  have hblockNl : ∀ l ∈ block, NoNl l := by
+    intro l hl
+    obtain ⟨r, _, rfl⟩ := List.mem_map.mp hl
+    cases hg : rows[r]? with
+    | none => intro c hc; simp at hc
+    | some l0 => exact hdoc.1 l0 (List.mem_of_getElem? hg)
+  have hblockLen : block.length = pl.sel.e.line + 1 - pl.sel.s.line := by simp [block, rangeList]
+  have hblockGet : ∀ k, k < block.length → block[k]? = some (rows[pl.sel.s.line + k]?.getD []) := by
+    intro k hk
+    rw [hblockLen] at hk
+    simp [block, rangeList, List.getElem?_map, List.getElem?_range hk, Nat.add_comm]
+  have hblockDoc : IsDoc (joinT block) block true := ⟨hblockNl, by simp⟩
+  have hselTxt : pl.selTxt =
+      (if decide (pl.lineSep = [CR, LF]) then lfToCrlf (joinT block) else joinT block) := by
+    rw [f.selTxtEq, hsplit]
+    have hfm : ∀ sep : List Nat, ((rangeList pl.sel.s.line pl.sel.e.line).flatMap
+        fun l => rows[l]?.getD [] ++ sep) = block.flatMap (fun l => l ++ sep) := by
+      intro sep; simp [block, List.flatMap_map]
+    rw [hfm]
+    obtain ⟨e1, e2⟩ := flatMap_sep_eq block hblockNl
+    rcases f.lineSepOk with hs | hs
+    · rw [hs]; simp [e1]
+    · rw [hs]; simp [CR, LF]; rfl
+  have hfit : ∀ ed ∈ pl.selEdits, (pl.sel.s.line ≤ ed.rng.s.line ∧ ed.rng.e.line = ed.rng.s.line) ∧
+      EditOn block (shiftEdit pl.sel.s.line ed) ∧ ed.rng.s.ch < ed.rng.e.ch ∧ ed.new ≠ [] := by
+    intro ed hed
+    obtain ⟨num, lab, n, hm, hin, _, rfl⟩ := (hselMem ed).mp hed
+    have hmem' : (num, lab) ∈ i.defs ++ i.refs := List.mem_append.mpr hm
+    obtain ⟨l, hl, h2, h3, h4⟩ := labelOK_geom (hok _ hmem')
+    obtain ⟨hn1, hn2⟩ := applyMapping_new n lab
+    simp only [inSel, Bool.and_eq_true, decide_eq_true_eq] at hin
+    have hk : lab.rng.s.line - pl.sel.s.line < block.length := by rw [hblockLen]; omega
+    have hget := hblockGet _ hk
+    have : pl.sel.s.line + (lab.rng.s.line - pl.sel.s.line) = lab.rng.s.line := by omega
+    rw [this] at hget
+    dsimp only at hl
+    rw [hl] at hget
+    refine ⟨⟨hin.1, h2⟩, ⟨?_, hn1, l, hget, Nat.le_of_lt h3, h4⟩, h3, hn2⟩
+    simp only [shiftEdit, applyMapping]
+    dsimp only at h2
+    rw [h2]
+  obtain ⟨d', block', happ', hd', hlen, hspec⟩ :=
+    applyEdits_row_disjoint hblockDoc (decide (pl.lineSep = [CR, LF])) pl.selEdits pl.sel.s.line hfit hdisSel
+  rw [← hselTxt, hu] at happ'
+  injection happ' with hupdated
+  have hd'eq : d' = joinT block' := by simpa [IsDoc] using hd'.2
+  refine ⟨updated, block', hedits, ?_, by rw [hlen, hblockLen], ?_⟩
+  · rw [hupdated, hd'eq]
+    by_cases hs : pl.lineSep = [CR, LF] <;> simp [hs]
+  · intro k l hk hl
+    rw [hlen] at hk
+    have hget := hblockGet k hk
+    rw [hl] at hget
+    obtain ⟨as, hc, hrow, hm⟩ := hspec k l hget
+    refine ⟨as, hc, hrow, ?_⟩
+    intro x
+    rw [hm]
+    constructor
+    · rintro ⟨ed, hed, hr, rfl⟩
+      obtain ⟨num, lab, n, hmm, _, hl', rfl⟩ := (hselMem ed).mp hed
+      exact ⟨num, lab, n, hmm, hr, hl', rfl⟩
+    · rintro ⟨num, lab, n, hmm, hr, hl', rfl⟩
+      refine ⟨applyMapping n lab, (hselMem _).mpr ⟨num, lab, n, hmm, ?_, hl', rfl⟩, hr, rfl⟩
+      rw [hblockLen] at hk
+      simp only [inSel, Bool.and_eq_true, decide_eq_true_eq]
+      omega
+
+/-- a request that moves: `20 INPUT X / 30 PRINT X` become `1000 / 1002` and go behind `40 END`; the reference in
+row 0 follows -/
+def exMove : Input :=
+  { src := [49,48,32,71,79,84,79,32,51,48,10,50,48,32,73,78,80,85,84,32,88,10,51,48,32,80,82,73,78,84,32,88,10,52,48,32,69,78,68],
+    defs := [(10, ⟨⟨⟨0,0⟩,⟨0,3⟩⟩,0,1⟩), (20, ⟨⟨⟨1,0⟩,⟨1,3⟩⟩,0,1⟩), (30, ⟨⟨⟨2,0⟩,⟨2,3⟩⟩,0,1⟩), (40, ⟨⟨⟨3,0⟩,⟨3,3⟩⟩,0,1⟩)],
+    refs := [(30, ⟨⟨⟨0,8⟩,⟨0,10⟩⟩,0,0⟩)], beg := 20, end_ := 40, first := 1000, step := 2, flags := 1, maxNum := 63999 }
+
+/-- `exMove` is an instance of `moved_block_partial` in which the block really moves
+(`10 GOTO 1002 / 40 END / 1000 INPUT X / 1002 PRINT X`) -/
+example :
+    labelsOK exMove.src exMove.defs exMove.refs = true ∧ exMove.flags / 2 % 2 = 0 ∧
+    renumber exMove = .ok [49,48,32,71,79,84,79,32,49,48,48,50,10,52,48,32,69,78,68,10,49,48,48,48,32,73,78,80,85,84,32,88,10,
+      49,48,48,50,32,80,82,73,78,84,32,88,10] ∧
+    (plan exMove.src exMove.defs exMove.refs (some ⟨⟨1,0⟩,⟨3,0⟩⟩) exMove.params).bind
+      (fun pl => .ok (pl.ins, pl.sel.s.line, pl.sel.e.line)) = .ok (4, 1, 2) := by decide
 
 end A2Verif.C16
